@@ -50,6 +50,14 @@ Proof.
   destruct (stray_text_hd c) as (h & r & -> & _). destruct a; reflexivity.
 Qed.
 
+Lemma stray_inertf c : inertf (hd_error (stray_text c)).
+Proof.
+  destruct c as [|k|x]; cbn [stray_text].
+  - exact inertf_125.
+  - destruct k; [exact inertf_36 | exact inertf_92 | exact inertf_92].
+  - exact inertf_92.
+Qed.
+
 Section Stray.
   Variable s : str.
   Variable cx : context.
